@@ -535,10 +535,15 @@ def it_next(it, st, itv, fr):
                 yield s2, itv, None
     elif kind == 'splitc':            # str::split(char): src = (string, separator byte); pos = start of the next piece (None: finished)
         s, sep = src
-        if pos is None:
+        if pos is None or cur == 0:
             yield st, itv, None
             return
         K = len(s.bytes)
+        if cur == 1:
+            # splitn: the last permitted piece is the whole remainder
+            yield st, It('splitc', src, None, None, 0), st.ref(bstr_slice(s, bv(pos), s.len))
+            return
+        nxt_cur = None if cur is None else cur - 1
         nosep = lambda a, b_: z3.And(*[z3.Or(z3.UGE(bv(i), s.len), s.bytes[i] != sep) for i in range(a, b_)]) if b_ > a else z3.BoolVal(True)
         # the next separator is at j (start <= j < len), or there is none
         for j in range(pos, K):
@@ -546,11 +551,11 @@ def it_next(it, st, itv, fr):
             if it.feasible(st, cond):
                 s2 = st.fork()
                 s2.pc.append(cond)
-                yield s2, It('splitc', src, None, j + 1), s2.ref(bstr_slice(s, bv(pos), bv(j)))
+                yield s2, It('splitc', src, None, j + 1, nxt_cur), s2.ref(bstr_slice(s, bv(pos), bv(j)))
         cond = z3.And(nosep(pos, K), z3.UGE(s.len, bv(pos)))
         if it.feasible(st, cond):
             st.pc.append(cond)
-            yield st, It('splitc', src, None, None), st.ref(bstr_slice(s, bv(pos), s.len))
+            yield st, It('splitc', src, None, None, nxt_cur), st.ref(bstr_slice(s, bv(pos), s.len))
     elif kind in EXTRA_ITER_KINDS:
         yield from EXTRA_ITER_KINDS[kind](it, st, itv, fr)
     else:
@@ -825,6 +830,46 @@ def M_str_split_char_real(it, ctx, args, st):
     if ch is None or ch >= 128:
         raise Unsupported('str::split with a symbolic / non-ASCII separator')
     yield st, It('splitc', (sval(st, args[0]), z3.BitVecVal(ch, 8)), None, 0)
+
+
+def M_str_splitn_str(it, ctx, args, st):
+    n = concrete(args[1])
+    pat = bstr_py(sval(st, args[2]))
+    if n is None or pat is None or len(pat) != 1 or pat[0] >= 128:
+        raise Unsupported('str::splitn with a symbolic count or a pattern that is not one ASCII byte')
+    yield st, It('splitc', (sval(st, args[0]), z3.BitVecVal(pat[0], 8)), None, 0, n)
+
+
+def M_split_first(it, ctx, args, st):
+    p = args[0]
+    while isinstance(st.deref(p), Ptr):
+        p = st.deref(p)
+    v = st.deref(p)
+    if isinstance(v, BStr):
+        for s2, ne in fork_bool(it, st, v.len != 0):
+            if ne:
+                yield s2, it.some(Agg('tuple', (Ptr(p.addr, p.proj + (('i', 0),)), s2.ref(bstr_slice(v, bv(1), v.len)))))
+            else:
+                yield s2, it.none
+        return
+    if isinstance(v, Seq):
+        yield st, (it.some(Agg('tuple', (Ptr(p.addr, p.proj + (('i', 0),)), st.ref(Seq(v.items[1:]))))) if v.items else it.none)
+        return
+    raise Unsupported('split_first of ' + repr(v)[:60])
+
+
+def M_u8_class(name):
+    rng = lambda b, lo, hi: z3.And(z3.UGE(b, lo), z3.ULE(b, hi))
+    tests = {'is_ascii_lowercase': lambda b: rng(b, 97, 122), 'is_ascii_uppercase': lambda b: rng(b, 65, 90), 'is_ascii_digit': lambda b: rng(b, 48, 57),
+             'is_ascii_alphabetic': lambda b: z3.Or(rng(b, 97, 122), rng(b, 65, 90)), 'is_ascii_alphanumeric': lambda b: z3.Or(rng(b, 97, 122), rng(b, 65, 90), rng(b, 48, 57)),
+             'is_ascii': lambda b: z3.ULT(b, 128), 'is_ascii_hexdigit': lambda b: z3.Or(rng(b, 48, 57), rng(b, 97, 102), rng(b, 65, 70)),
+             'is_ascii_whitespace': lambda b: z3.Or(b == 32, b == 9, b == 10, b == 12, b == 13), 'is_ascii_punctuation': lambda b: z3.Or(rng(b, 33, 47), rng(b, 58, 64), rng(b, 91, 96), rng(b, 123, 126)),
+             'is_ascii_graphic': lambda b: rng(b, 33, 126), 'is_ascii_control': lambda b: z3.Or(z3.ULT(b, 32), b == 127)}
+
+    def f(it, ctx, args, st):
+        b = st.deref_all(args[0]) if isinstance(args[0], Ptr) else args[0]
+        yield st, tests[name](b)
+    return f
 
 
 def M_strip_suffix_char(it, ctx, args, st):
@@ -1535,7 +1580,19 @@ MODELS = [
     (ITER + r'collect::<.*>', M_collect), (ITER + r'count', M_count), (ITER + r'all::<.*>', M_all), (ITER + r'any::<.*>', M_any),
     (ITER + r'find::<.*>', M_find), (ITER + r'position::<.*>', M_position),
     (P + r'str::<impl str>::bytes', M_str_bytes), (P + r'str::<impl str>::split::<char>', M_str_split_char_real),
-    (P + r'str::<impl str>::strip_suffix::<char>', M_strip_suffix_char), (P + r'str::<impl str>::trim', M_str_trim), (ITER + r'fold::<.*>', M_fold), (ITER + r'try_fold::<.*>', M_try_fold),
+    (P + r'str::<impl str>::strip_suffix::<char>', M_strip_suffix_char),
+    (P + r'str::<impl str>::splitn::<&str>', M_str_splitn_str), (P + r'slice::<impl \[.*\]>::split_first', M_split_first),
+    (P + r'num::<impl u8>::is_ascii_lowercase', M_u8_class('is_ascii_lowercase')),
+    (P + r'num::<impl u8>::is_ascii_uppercase', M_u8_class('is_ascii_uppercase')),
+    (P + r'num::<impl u8>::is_ascii_digit', M_u8_class('is_ascii_digit')),
+    (P + r'num::<impl u8>::is_ascii_alphabetic', M_u8_class('is_ascii_alphabetic')),
+    (P + r'num::<impl u8>::is_ascii_alphanumeric', M_u8_class('is_ascii_alphanumeric')),
+    (P + r'num::<impl u8>::is_ascii_hexdigit', M_u8_class('is_ascii_hexdigit')),
+    (P + r'num::<impl u8>::is_ascii_whitespace', M_u8_class('is_ascii_whitespace')),
+    (P + r'num::<impl u8>::is_ascii_punctuation', M_u8_class('is_ascii_punctuation')),
+    (P + r'num::<impl u8>::is_ascii_graphic', M_u8_class('is_ascii_graphic')),
+    (P + r'num::<impl u8>::is_ascii_control', M_u8_class('is_ascii_control')),
+ (P + r'str::<impl str>::trim', M_str_trim), (ITER + r'fold::<.*>', M_fold), (ITER + r'try_fold::<.*>', M_try_fold),
     (ITER + r'max_by::<.*>', M_max_by),
     (ITER + r'max_by_key::<.*>', M_max_by_key), (ITER + r'min_by_key::<.*>', lambda it, ctx, args, st: M_max_by_key(it, ctx, args, st, True)),
     (r'<' + P + r'(slice::Iter|iter::\w+|str::Chars|vec::IntoIter|collections::btree_set::Iter|collections::btree_map::Iter)<.*> as ' + P + r'iter::Iterator>::next', M_iter_next),
